@@ -36,6 +36,11 @@ def build_tree(rng, with_all):
         for n, (data, hs) in samples.per_handler().items():
             add("t/all/" + n, data)
         add("t/all/clean.html", b"<html>\n<head>\n<title>x</title>\n</head>\n</html>\n")
+        # pages that end before a header end is seen and hold nothing to replace: a fragment, a one-line stub, an empty file, one with two names
+        add("t/all/fragment.html", b"<p>a note</p>\n<p>second line</p>\n")
+        add("t/all/stub.html", b"<meta http-equiv=\"refresh\" content=\"0; url=index.html\">")
+        add("t/all/empty.html", b"")
+        add("t/all/fragment-linked.html", b"<div>\nshared\n</div>\n", links=["t/sub/fragment-other-name.html"])
         add("t/all/broken.zip", b"PK\x03\x04 this is not a zip")
         add("t/all/broken.pyc", samples.dirty_pyc()[:40])
         # two handlers, one file: only the first finds something to change / only the second does
